@@ -545,6 +545,15 @@ def _mk_modules():
     th.Event = Event
     th.Lock = Lock
     th.RLock = RLock
+
+    def missing(modname):
+        def __getattr__(name):
+            if name.startswith("__"):
+                raise AttributeError(name)
+            raise HarnessError("the virtual %s module does not model %r (harness limitation, not a verdict)" % (modname, name))
+        return __getattr__
+    for m_ in (mp, ctx, proc, th):
+        m_.__getattr__ = missing(m_.__name__)
     return {"multiprocessing": mp, "multiprocessing.context": ctx, "multiprocessing.process": proc, "threading": th}
 
 
